@@ -12,7 +12,8 @@ void Ctx::addViolation(const std::string& cls, const std::string& site, const st
     for (auto& v : viol) if (v.cls == cls && v.site == site) return;   // first occurrence per (class, site) and run
     if (viol.size() >= maxViol) return;
     Violation v;
-    v.cls = cls;
+    v.cls = (guardDepth > 0 && cls == "argcheck") ? std::string("wrapper-args") : cls;
+    for (auto& o : viol) if (o.cls == v.cls && o.site == site) return;
     v.site = site;
     v.detail = detail;
     v.task = sim.active ? sim.taskLabel(sim.curTask) : std::string("sequential");
@@ -25,6 +26,7 @@ void Ctx::resetRun() {
     kernelWorkers.clear();
     callbacks = 0;
     argchecks = 0;
+    guardDepth = 0;
 }
 
 void Ctx::enter(int op, long level, const void* kthis, long n) {
@@ -95,7 +97,7 @@ void Ctx::checkLeafArgs(int op, const LeafArgs& a, int expectTree, const char* r
 }
 
 void Ctx::onP2M(const void* symb, long symbIndex, const Coord& symbCoord, const LeafArgs& leaf, const void* mult, size_t multBytes) {
-    if (record && sim.active) {
+    if (record && sim.active && guardDepth == 0) {
         for (auto p : leaf.data) sim.noteAccess(p, size_t(leaf.n) * (view ? view->dataElem : 8), false, BUF_PART_SYMB);
         sim.noteAccess(mult, multBytes, true, BUF_MULT);
     }
@@ -120,7 +122,7 @@ static bool distinctCodes(const long* codes, long n) {
 
 void Ctx::onM2M(const void* symb, long symbIndex, const Coord& symbCoord, long level, const std::vector<const void*>& children,
                 const long* codes, long n, const void* parent, size_t bytes) {
-    if (record && sim.active) {
+    if (record && sim.active && guardDepth == 0) {
         for (auto p : children) sim.noteAccess(p, bytes, false, BUF_MULT);
         sim.noteAccess(parent, bytes, true, BUF_MULT);
     }
@@ -157,7 +159,7 @@ void Ctx::onM2M(const void* symb, long symbIndex, const Coord& symbCoord, long l
 
 void Ctx::onL2L(const void* symb, long symbIndex, const Coord& symbCoord, long level, const void* parent,
                 const std::vector<const void*>& children, const long* codes, long n, size_t bytes) {
-    if (record && sim.active) {
+    if (record && sim.active && guardDepth == 0) {
         sim.noteAccess(parent, bytes, false, BUF_LOCAL);
         for (auto p : children) sim.noteAccess(p, bytes, true, BUF_LOCAL);
     }
@@ -194,7 +196,7 @@ void Ctx::onL2L(const void* symb, long symbIndex, const Coord& symbCoord, long l
 
 void Ctx::onM2L(const void* symb, long symbIndex, const Coord& symbCoord, long level, const std::vector<const void*>& srcs,
                 const long* codes, long n, const void* target, size_t srcBytes, size_t tgtBytes) {
-    if (record && sim.active) {
+    if (record && sim.active && guardDepth == 0) {
         for (auto p : srcs) sim.noteAccess(p, srcBytes, false, BUF_MULT);
         sim.noteAccess(target, tgtBytes, true, BUF_LOCAL);
     }
@@ -241,7 +243,7 @@ void Ctx::onM2L(const void* symb, long symbIndex, const Coord& symbCoord, long l
 }
 
 void Ctx::onL2P(const void* symb, long symbIndex, const Coord& symbCoord, const void* local, size_t localBytes, const LeafArgs& leaf) {
-    if (record && sim.active) {
+    if (record && sim.active && guardDepth == 0) {
         sim.noteAccess(local, localBytes, false, BUF_LOCAL);
         for (auto p : leaf.data) sim.noteAccess(p, size_t(leaf.n) * (view ? view->dataElem : 8), false, BUF_PART_SYMB);
         for (auto p : leaf.rhs) sim.noteAccess(p, size_t(leaf.n) * (view ? view->rhsElem : 8), true, BUF_RHS);
@@ -261,7 +263,7 @@ void Ctx::onL2P(const void* symb, long symbIndex, const Coord& symbCoord, const 
 }
 
 void Ctx::onP2P(int op, const LeafArgs& src, const LeafArgs& tgt, long code) {
-    if (record && sim.active) {
+    if (record && sim.active && guardDepth == 0) {
         const size_t de = view ? view->dataElem : 8, re = view ? view->rhsElem : 8;
         for (auto p : src.data) sim.noteAccess(p, size_t(src.n) * de, false, BUF_PART_SYMB);
         for (auto p : tgt.data) sim.noteAccess(p, size_t(tgt.n) * de, false, BUF_PART_SYMB);
@@ -292,7 +294,7 @@ void Ctx::onP2P(int op, const LeafArgs& src, const LeafArgs& tgt, long code) {
 }
 
 void Ctx::onP2PInner(const LeafArgs& leaf) {
-    if (record && sim.active) {
+    if (record && sim.active && guardDepth == 0) {
         const size_t de = view ? view->dataElem : 8, re = view ? view->rhsElem : 8;
         for (auto p : leaf.data) sim.noteAccess(p, size_t(leaf.n) * de, false, BUF_PART_SYMB);
         for (auto p : leaf.rhs) sim.noteAccess(p, size_t(leaf.n) * re, true, BUF_RHS);
